@@ -25,7 +25,100 @@ class Extractor:
     def fn_grammar(self, path):
         rec = self.facts.hir[path]
         self.cur = path
-        return self.block_grammar(rec['body'], rec['params'])
+        g = self.block_grammar(rec['body'], rec['params'])
+        if g[0] == 'unknown':
+            # not a combinator expression / let-chain: a parser written by hand.  Its grammar is read off its enumerated paths:
+            # what the remainder it returns is made of (see path_grammar)
+            g2 = self.path_grammar(path)
+            if g2 is not None:
+                return g2
+        return g
+
+    # ------------------------------------------------------------------ hand-written parser bodies
+    def path_grammar(self, path):
+        """The grammar of a parser function read off the paths of the abstract interpreter instead of its statements: on every
+        accepting path the function returns `Ok((rest, value))`; `rest` is a term that says which parsers (or prefix splits) were
+        applied to the input parameter, in which order - that sequence is what the function consumes, wherever the statements
+        that compute the *value* (loops, folds, lets) stand.  A path that answers an error although every parser of the chain
+        succeeded is a semantic rejection: the sequence is wrapped in ('check', .., 'by-hand').  None when the paths cannot be
+        read this way (the caller keeps the 'unknown' of the statement reading: fails closed)."""
+        import absx
+        rec = self.facts.hir[path]
+        if len(rec['params']) != 1:
+            return None
+        B = hirq.Body(self.facts, rec)
+        I = absx.Interp(self.facts, B, for_once=True)
+        I.carry_vecs = True
+        try:
+            outs = I.run()
+        except absx.TooManyPaths:
+            return None
+        inp = [('param', d['name']) for b, d in B.defs.items() if d['kind'] == 'param' and not d['proj']]
+        if len(inp) != 1:
+            return None
+        chains, rejects = [], 0
+        for o in outs:
+            v = o.val
+            if o.kind in ('val', 'ret') and v[0] == 'ctor' and v[1] == 'Ok' and len(v[2]) == 1 and v[2][0][0] == 'tuple' and len(v[2][0][1]) == 2:
+                ch = self.cursor_chain(v[2][0][1][0], inp[0], B)
+                if ch is None:
+                    return None
+                chains.append(ch)
+            elif o.kind in ('val', 'ret') and v[0] == 'tryerr':
+                continue            # the failure of an applied parser, propagated: the sequence fails where that parser fails
+            elif o.kind in ('val', 'ret') and v[0] == 'ctor' and v[1] == 'Err':
+                rejects += 1
+            else:
+                return None         # a panic, an unfinished loop, a value that is not a parser result
+        if not chains or any(repr(c) != repr(chains[0]) for c in chains[1:]):
+            return None
+        g = flat(('seq', chains[0])) if chains[0] else None
+        if g is None:
+            return None
+        if rejects:
+            self.checks.append((self.cur, 'by-hand', rec['body']))
+            g = ('check', g, 'by-hand')
+        return g
+
+    def cursor_chain(self, t, inp, B):
+        """[grammar element ...] consumed between the input parameter and the remainder term t; None if t is not such a term"""
+        if t == inp:
+            return []
+        ps = prefix_split(t)
+        if ps is not None:
+            cur, pred, role, one_or_more = ps
+            if role != 'rest':
+                return None
+            head = self.cursor_chain(cur, inp, B)
+            name = self.pred_class(pred, B)
+            if head is None or name is None:
+                return None
+            return head + [('plus' if one_or_more else 'star', ('class', name))]
+        # the remainder of a parser application: `(.0 of the Ok payload of  <parser>(cursor))`
+        if t[0] == 'field' and t[2] == '0' and t[1][0] == 'variant' and t[1][2] == 'Ok' and t[1][3] == 0 and t[1][1][0] == 'call':
+            app = t[1][1]
+            if app[1] == '<indirect>' and len(app[2]) == 2:
+                head = self.cursor_chain(app[2][1], inp, B)
+                node = B.by_id.get(app[3])
+                if head is None or node is None or node.get('k') != 'Call':
+                    return None
+                g = self.comb(node['f'])
+                return None if g[0] == 'unknown' else head + [g]
+            if app[1].startswith(self.prefix) and len(app[2]) == 1:
+                head = self.cursor_chain(app[2][0], inp, B)
+                return None if head is None else head + [('ref', app[1])]
+        return None
+
+    def pred_class(self, pred, B):
+        if pred[0] == 'fn':
+            self.classes[pred[1]] = ('fn', pred[1])
+            return pred[1]
+        if pred[0] == 'closure':
+            node = next((n for n in B.nodes if n['k'] == 'Closure' and n.get('def') == pred[1]), None)
+            if node is not None:
+                self.classes[pred[1]] = ('closure', node)
+                return pred[1]
+        return None
 
     # a function / closure body that parses its (single) input parameter
     def block_grammar(self, b, params):
@@ -164,6 +257,28 @@ class Extractor:
             return name
         return 'unknown-predicate'
 
+
+def prefix_split(t):
+    """Library model, stated once: terms that denote one half of "the input split after its longest prefix of bytes satisfying a
+    predicate".  Returns (input term, predicate term, 'taken' | 'rest', at-least-one) or None.
+      * nom `take_while(p)(s)` = Ok((rest, taken)): taken is the longest prefix of s whose bytes satisfy p, rest what follows; it
+        never fails (`take_while1` fails when taken would be empty - the sequence then fails like any parser of the chain);
+      * `s.split_at(s.iter().take_while(p).count())` = (taken, rest): Iterator::take_while yields the elements before the first
+        one that fails p and count() counts them, so the split point is the length of that same longest prefix (<= s.len())."""
+    if t[0] != 'field' or t[2] not in ('0', '1'):
+        return None
+    b = t[1]
+    if b[0] == 'variant' and b[2] == 'Ok' and b[3] == 0 and b[1][0] == 'call' and b[1][1] == '<indirect>' and len(b[1][2]) == 2:
+        fv, cur = b[1][2]
+        if fv[0] == 'call' and fv[1] in ('nom::bytes::complete::take_while', 'nom::bytes::complete::take_while1') and len(fv[2]) == 1:
+            return cur, fv[2][0], ('rest' if t[2] == '0' else 'taken'), fv[1].endswith('1')
+    if b[0] == 'call' and b[1].endswith('::split_at') and b[1].startswith('core::slice::') and len(b[2]) == 2:
+        cur, n = b[2]
+        if n[0] == 'call' and n[1] == 'core::iter::traits::iterator::Iterator::count' and len(n[2]) == 1:
+            tw = n[2][0]
+            if tw[0] == 'call' and tw[1] == 'core::iter::traits::iterator::Iterator::take_while' and len(tw[2]) == 2 and tw[2][0] == cur:
+                return cur, tw[2][1], ('taken' if t[2] == '0' else 'rest'), False
+    return None
 
 def flat(g):
     if g[0] == 'bound':
